@@ -1581,7 +1581,7 @@ func (P *Prog) collectThenKeyUse(l rangeLoop, ph *ssa.Phi) bool {
 	// ending in a return of fn
 	flow := map[ssa.Value]bool{}
 	ok := true
-	returned := false
+	returned, consumed := false, false
 	var visit func(v ssa.Value)
 	visit = func(v ssa.Value) {
 		if flow[v] || !ok {
@@ -1599,6 +1599,8 @@ func (P *Prog) collectThenKeyUse(l rangeLoop, ph *ssa.Phi) bool {
 			case *ssa.Call:
 				if ci := callOf(x); ci.builtin == "append" && x.Call.Args[0] == v {
 					visit(x)
+				} else if keySetUse(x) {
+					consumed = true
 				} else {
 					ok = false
 				}
@@ -1606,12 +1608,22 @@ func (P *Prog) collectThenKeyUse(l rangeLoop, ph *ssa.Phi) bool {
 				returned = true
 			case *ssa.DebugRef:
 			default:
-				ok = false
+				// consumed in the same function: measured, or indexed for elements that are used as keys only
+				if !keySetUse(rf) {
+					ok = false
+				}
+				consumed = true
 			}
 		}
 	}
 	visit(ph)
-	if !ok || !returned || fn.Signature.Results().Len() != 1 {
+	if !ok || (!returned && !consumed) {
+		return false
+	}
+	if !returned {
+		return true
+	}
+	if fn.Signature.Results().Len() != 1 {
 		return false
 	}
 	sites, closed := P.closedCallSites(fn)
@@ -1634,6 +1646,17 @@ func sliceUsedOnlyAsKeySet(s ssa.Value) bool {
 	if refs == nil {
 		return true
 	}
+	for _, rf := range *refs {
+		if _, isDbg := rf.(*ssa.DebugRef); !isDbg && !keySetUse(rf) {
+			return false
+		}
+	}
+	return true
+}
+
+// keySetUse: one use of a slice of keys that does not depend on the order of its elements: its length, or an
+// element read whose value is used only as a map key in operations on that key.
+func keySetUse(rf ssa.Instruction) bool {
 	keyOnly := func(e ssa.Value) bool {
 		er := e.Referrers()
 		if er == nil {
@@ -1675,27 +1698,25 @@ func sliceUsedOnlyAsKeySet(s ssa.Value) bool {
 		}
 		return true
 	}
-	for _, rf := range *refs {
-		switch x := rf.(type) {
-		case *ssa.DebugRef:
-		case *ssa.IndexAddr:
-			ir := x.Referrers()
-			if ir == nil {
-				continue
-			}
-			for _, u := range *ir {
-				ld, isLoad := u.(*ssa.UnOp)
-				if !isLoad || ld.Op != token.MUL || !keyOnly(ld) {
-					return false
-				}
-			}
-		case *ssa.Call:
-			if ci := callOf(x); ci.builtin != "len" {
+	switch x := rf.(type) {
+	case *ssa.DebugRef:
+	case *ssa.IndexAddr:
+		ir := x.Referrers()
+		if ir == nil {
+			return true
+		}
+		for _, u := range *ir {
+			ld, isLoad := u.(*ssa.UnOp)
+			if !isLoad || ld.Op != token.MUL || !keyOnly(ld) {
 				return false
 			}
-		default:
+		}
+	case *ssa.Call:
+		if ci := callOf(x); ci.builtin != "len" {
 			return false
 		}
+	default:
+		return false
 	}
 	return true
 }
